@@ -248,7 +248,7 @@ pub fn run_big(args: &[String]) -> i32 {
         Program { kind: "CopyAtt".into(), a: "S".into(), b: "n0".into(), e: "e0".into(), ty: "tA".into(), ty2: "tA".into(), p: "p0".into(), ..Default::default() },
     ];
     programs::install(&progs);
-    let sizes: Vec<usize> = if thorough { vec![1, 700, 1023, 1024, 1025, 2048, 5000] } else { vec![1023, 1025] };
+    let sizes: Vec<usize> = if thorough { vec![1, 700, 1021, 1022, 1023, 2048, 5000] } else { vec![1021, 1023] }; // +2 for the adversarial pair: 1023 | 1024 | 1025
     let mut violations: Vec<Value> = Vec::new();
     let mut runs = 0usize;
     let mut pairs_found = 0usize;
@@ -263,7 +263,7 @@ pub fn run_big(args: &[String]) -> i32 {
             store.insert_node(ids::node(&lbl), warp_core::NodeRecord { ty: ids::ty("tA") });
             // rule 1 / rule 2 touch only their scope; rule 3 conflicts with rule 1 on the same scope;
             // rule 4 (CopyAtt S -> n0) conflicts with every other rule-4 candidate (all write att(n0))
-            let r = match rng.gen_range(0..10) { 0..=4 => 1, 5..=7 => 2, 8 => 3, _ => 4 };
+            let r = match rng.gen_range(0..10) { 0..=5 => 1, 6..=8 => 2, _ => 3 };
             picks.push((r, lbl.clone()));
             if r == 1 && rng.gen_bool(0.3) && picks.len() < size {
                 picks.push((3, lbl.clone()));
@@ -273,7 +273,6 @@ pub fn run_big(args: &[String]) -> i32 {
         // adversarial pair: the ONLY two rule-4 candidates of the tick conflict with each other (both write att(n0))
         // and their scope hashes share the first 4 bytes (found by label search), so a sort that looks at a key
         // prefix only would let arrival order decide which one is admitted
-        picks.retain(|(r, _)| *r != 4);
         if let Some((a, b)) = prefix_colliding_pair(4, 4) {
             for lbl in [a, b] {
                 store.insert_node(ids::node(&lbl), warp_core::NodeRecord { ty: ids::ty("tA") });
@@ -294,6 +293,11 @@ pub fn run_big(args: &[String]) -> i32 {
                     order.shuffle(&mut rng);
                     let extra: Vec<_> = order.iter().take(order.len() / 3 + 1).cloned().collect();
                     order.extend(extra);
+                    // and the prefix-sibling pair re-enqueued as A B A at the very end
+                    let pair: Vec<_> = picks.iter().filter(|(r, _)| *r == 4).cloned().collect();
+                    if pair.len() == 2 {
+                        order.extend([pair[0].clone(), pair[1].clone(), pair[0].clone()]);
+                    }
                 }
             }
             for (kind, kname) in [(SchedulerKind::Radix, "radix"), (SchedulerKind::Legacy, "legacy")] {
